@@ -47,7 +47,13 @@ def run_case(case):
     try:
         xs = [world.request(bundle_like(n, k + case['salt'])) for (k, n) in enumerate(case['lengths'])]
         # (a polling sender never runs out of timers: a bounded stretch of virtual time is enough for the transfers)
-        world.pump_sender(**({'max_ms': case['pump_ms']} if case.get('polling_ms') else {}))
+        if case.get('polling_ms'):
+            for horizon in (case['pump_ms'], 20000, 90000, 400000):
+                world.pump_sender(max_ms=horizon)
+                if {ev['x'] for ev in world.log if ev['a'] == 'SendDone'} >= set(xs):
+                    break
+        else:
+            world.pump_sender()
         order = case['order'](world)
         seen = set()
 
